@@ -1,11 +1,16 @@
 /-
   C02 — Zone lookup follows the standard authoritative-server algorithm.
-  FIRST-CLAIM version: the clauses the property singles out, proved directly on the tree model for
-  every node / name / type.  The refinement of the whole lookup to the flat specification
-  `ZSpec.lookup` (Spec/ZoneSpec.lean) under D1 is the next theorem (see DESIGN §7 C02); until it
-  closes, that statement is checked by the Impl-vs-Spec oracle on the streams only.
+  A. the clauses the property singles out, proved directly on the tree model for every node / name /
+     type (`zone_result_helper`: answer / CNAME / referral clauses, CNAME precedence; `resolve`:
+     existing names never yield a name error, a name error only where the path stops).
+  B. MAIN: the whole lookup of every zone built by `Zone::new` + any insertions refines the flat,
+     tree-free specification `ZSpec.lookup` (Spec/ZoneSpec.lean) under hypothesis D1
+     (`C02_resolve_refines_spec`); insertion and lookup never panic.
+  Helper lemmas: Proofs/Zone*.lean.
 -/
 import Resolved.Spec.ZoneSpec
+import Resolved.Proofs.ZoneLemmas
+import Resolved.Proofs.ZoneMain
 
 namespace Resolved
 
@@ -57,5 +62,419 @@ theorem C02_ent_empty_answer (nsd : Name) (wild : Option RecMap) (ch : List (Lab
     | none => simp
     | some s => simp; split <;> simp
   · rename_i h; simp at h
+
+/-! ## A. clause theorems on the tree model -/
+
+/-- A1 (answer): every record of an answer is a record stored at the node (with the query's owner
+    name), and for an ordinary (non-QTYPE) query type it is stored under exactly that type. -/
+theorem C02_answer_records_are_zone_records (name : Name) (qtype : Nat) (records : RecMap)
+    (nsd : Name) (cd : Bool) (rrs : List RR)
+    (h : zoneResultHelper name qtype records nsd cd = .answer rrs) :
+    ∀ rr ∈ rrs, ∃ k zrs zr, (k, zrs) ∈ records ∧ zr ∈ zrs ∧ rr = zr.toRR name ∧
+      (lookupNat queryTypeFromU16 qtype = none → k = qtype) := by
+  rw [zoneResultHelper_eq] at h
+  split at h
+  · cases h
+  · exact helperData_answer name qtype records rrs h
+
+/-- A1 (cname): a CNAME result is the FIRST stored CNAME record, `c` is its target, and the query
+    type is neither CNAME nor ANY. -/
+theorem C02_cname_result_is_first_cname (name : Name) (qtype : Nat) (records : RecMap)
+    (nsd : Name) (cd : Bool) (c : Name) (rr : RR)
+    (h : zoneResultHelper name qtype records nsd cd = .cname c rr) :
+    ∃ z zs, records.get RT_CNAME = some (z :: zs) ∧ z.fields = [.name c] ∧ rr = z.toRR name ∧
+      rtypeMatches RT_CNAME qtype = false := by
+  rw [zoneResultHelper_eq] at h
+  split at h
+  · cases h
+  · exact helperData_cname name qtype records c rr h
+
+/-- A1 (delegation): a referral is exactly the (non-empty) NS record set, owned by `nsd`; it is only
+    produced where delegation is allowed and never for an NS query. -/
+theorem C02_delegation_result_is_ns_set (name : Name) (qtype : Nat) (records : RecMap)
+    (nsd : Name) (cd : Bool) (rrs : List RR)
+    (h : zoneResultHelper name qtype records nsd cd = .delegation rrs) :
+    cd = true ∧ qtype ≠ RT_NS ∧ rrs ≠ [] ∧
+      ∃ z zs, records.get RT_NS = some (z :: zs) ∧ rrs = (z :: zs).map (·.toRR nsd) := by
+  obtain ⟨h1, h2, z, zs, h3, h4⟩ := (zoneResultHelper_delegation_iff _ _ _ _ _ _).mp h
+  exact ⟨h1, h2, by simp [h4], z, zs, h3, h4⟩
+
+/-- A2: where no delegation applies, a stored CNAME takes precedence over data for every query
+    type other than CNAME and ANY … -/
+theorem C02_cname_precedence (name : Name) (qtype : Nat) (records : RecMap) (nsd : Name) (cd : Bool)
+    (z : ZoneRecord) (zs : List ZoneRecord) (c : Name)
+    (hcn : records.get RT_CNAME = some (z :: zs)) (hf : z.fields = [.name c])
+    (hnd : cd = false ∨ qtype = RT_NS ∨ records.get RT_NS = none ∨ records.get RT_NS = some [])
+    (hq : rtypeMatches RT_CNAME qtype = false) :
+    zoneResultHelper name qtype records nsd cd = .cname c (z.toRR name) := by
+  rw [zoneResultHelper_no_deleg_eq, helperData_cname_of name qtype records z zs c hcn hf hq]
+  rcases hnd with h | h | h | h
+  · exact Or.inl h
+  · exact Or.inr (Or.inl h)
+  · exact Or.inr (Or.inr (by simp [nsOf, h]))
+  · exact Or.inr (Or.inr (by simp [nsOf, h]))
+
+/-- … and a CNAME or ANY query is never answered with a CNAME indirection. -/
+theorem C02_cname_query_never_cname_result (name : Name) (qtype : Nat) (records : RecMap) (nsd : Name)
+    (cd : Bool) (hq : rtypeMatches RT_CNAME qtype = true) :
+    ∀ c rr, zoneResultHelper name qtype records nsd cd ≠ .cname c rr := by
+  intro c rr h
+  obtain ⟨_, _, _, _, _, hm⟩ := C02_cname_result_is_first_cname _ _ _ _ _ _ _ h
+  rw [hq] at hm; cases hm
+
+/-- `rtypeMatches RT_CNAME qtype` holds exactly for CNAME (5) and ANY (255). -/
+theorem C02_cname_matches_iff (qtype : Nat) :
+    rtypeMatches RT_CNAME qtype = true ↔ qtype = 5 ∨ qtype = 255 := by
+  unfold rtypeMatches
+  rw [lookupNat_qt]
+  by_cases h1 : qtype = 252
+  · subst h1; simp
+  by_cases h2 : qtype = 253
+  · subst h2; simp
+  by_cases h3 : qtype = 254
+  · subst h3; simp
+  by_cases h4 : qtype = 255
+  · subst h4; simp
+  simp only [h1, h2, h3, h4, if_false, RT_CNAME, or_false]
+  rw [beq_iff_eq]; exact eq_comm
+
+/-- A3: a name whose full path exists in the tree never yields a name error; the result is
+    `zone_result_helper` on the record sets of the node owning the name, and delegation is switched
+    off exactly when that node is the apex. -/
+theorem C02_existing_name_never_nameerror (node : ZNode) (name : Name) (qtype : Nat)
+    (rel : List Label) (isApex : Bool) (h : PathExists node rel) :
+    node.resolve name qtype rel isApex ≠ .nameError ∧
+    ∃ n, node.nodeAt rel = some n ∧
+      node.resolve name qtype rel isApex =
+        zoneResultHelper name qtype n.this n.nsdname (!(isApex && rel.isEmpty)) := by
+  obtain ⟨n, hn⟩ := (pathExists_iff_nodeAt node rel).mp h
+  have := resolve_of_nodeAt node n name qtype rel isApex hn
+  exact ⟨by rw [this]; exact zoneResultHelper_ne_nameError _ _ _ _ _, n, hn, this⟩
+
+/-- A3: a name error is only produced when the path does not exist: the descent stopped at an
+    existing node (owner `suf`) that has no child for the next label, no wildcard set, and is either
+    the apex or carries no NS records. -/
+theorem C02_nameerror_only_when_absent (node : ZNode) (name : Name) (qtype : Nat)
+    (rel : List Label) (isApex : Bool) (h : node.resolve name qtype rel isApex = .nameError) :
+    ¬ PathExists node rel ∧
+    ∃ pre lbl suf n, rel = pre ++ lbl :: suf ∧ node.nodeAt suf = some n ∧
+      ZNode.childGet n.children lbl = none ∧ n.wildcards = none ∧
+      ((isApex = true ∧ suf = []) ∨ nsOf n.this = []) := by
+  have hne : ¬ PathExists node rel := fun hp =>
+    (C02_existing_name_never_nameerror node name qtype rel isApex hp).1 h
+  refine ⟨hne, ?_⟩
+  obtain ⟨pre, lbl, suf, n, hrel, hn, hc, hres⟩ :=
+    resolve_of_not_pathExists node name qtype rel isApex hne
+  rw [hres] at h
+  obtain ⟨hw, hor⟩ := stopResult_nameError _ _ _ _ _ h
+  refine ⟨pre, lbl, suf, n, hrel, hn, hc, hw, ?_⟩
+  rcases hor with ha | hns
+  · left; simpa using ha
+  · exact Or.inr hns
+
+/-- A3 (converse direction at a non-apex node): an absent name beneath a node with NS records and no
+    wildcard set is referred, not denied. -/
+theorem C02_absent_beneath_ns_is_referral (node n : ZNode) (name : Name) (qtype : Nat)
+    (pre suf : List Label) (lbl : Label) (z : ZoneRecord) (zs : List ZoneRecord)
+    (hn : node.nodeAt suf = some n) (hsuf : suf ≠ [])
+    (hc : ZNode.childGet n.children lbl = none) (hw : n.wildcards = none)
+    (hns : n.this.get RT_NS = some (z :: zs)) :
+    node.resolve name qtype (pre ++ lbl :: suf) true =
+      .delegation ((z :: zs).map (·.toRR n.nsdname)) := by
+  have hd : node.descend suf.reverse = some n := hn
+  rw [ZNode.resolve_eq_rev]
+  have : (pre ++ lbl :: suf).reverse = suf.reverse ++ lbl :: pre.reverse := by simp
+  rw [this, ZNode.resolveRev_descend name qtype _ _ node n true hd, ZNode.resolveRev_stop _ _ _ _ _ _ hc]
+  simp [ZNode.stopResult, hw, hns, hsuf]
+
+/-! ## B. refinement of the tree to the flat specification `ZSpec.lookup`
+
+  Definitions used in the statements (Proofs/ZoneOps.lean, Proofs/ZoneMain.lean):
+  * `ZoneOp` — one `Zone::insert` / `Zone::insert_wildcard` call;
+  * `Zone.build apex soa ops` — `Zone::new` followed by the calls (`none` = a modelled panic);
+    `Zone.Reachable apex soa ops z` is the same as an inductive predicate;
+  * `ZSpec.entriesOf apex soa ops` — the flat entry list of the configuration (SOA entry first, one
+    entry per insertion, TTL clamped by `actual_ttl`, names outside the apex skipped) — the same
+    list as `entriesOf` of Driver/ZoneCmds.lean;
+  * `NameOK n` — `n` is a name `from_labels` builds (`from_labels n.labels = some n`). -/
+
+/-- names satisfying C16's well-formedness are `NameOK`. -/
+theorem nameOK_of_shape (n : Name) (h1 : LabelsShape n.labels)
+    (h2 : n.len = n.labels.length + sumLen n.labels) (h3 : n.len ≤ DOMAINNAME_MAX_LEN) : NameOK n := by
+  unfold NameOK
+  rw [fromLabels_eq, if_pos ⟨h1, by omega⟩]
+  cases n; simp_all
+
+/-- MAIN THEOREM (C02): for every zone built by any sequence of insertions, every well-formed query
+    name under the apex and every query type, under hypothesis D1 the tree lookup returns what the
+    flat RFC 1034 §4.3.2 / RFC 4592 specification prescribes (up to the order of the records inside
+    an answer). -/
+theorem C02_resolve_refines_spec (apex : Name) (soa : Option SOA) (ops : List ZoneOp) (z : Zone)
+    (qname : Name) (qtype : Nat) (rel : List Label)
+    (hapex : NameOK apex) (hq : NameOK qname)
+    (hb : Zone.build apex soa ops = some z)
+    (hrel : z.relativeDomain qname = some rel)
+    (hd1 : ZSpec.d1 (ZSpec.entriesOf apex soa ops) = true) :
+    ZSpec.sameResult (z.records.resolve qname qtype rel true)
+      (ZSpec.lookup (ZSpec.entriesOf apex soa ops) apex qname rel qtype) = true := by
+  have hr := Zone.repr_build apex soa ops z hapex hb
+  have hl := Zone.relativeDomain_some hrel
+  rw [hr.apex_eq] at hl
+  exact resolve_refines_lookup hr.tree hr.root_name hq rel hl hd1
+
+/-- The same for `Zone::resolve`: a name under the apex always gets a result, and it is the
+    specification's; a name outside the apex gets none. -/
+theorem C02_zone_resolve_refines_spec (apex : Name) (soa : Option SOA) (ops : List ZoneOp) (z : Zone)
+    (qname : Name) (qtype : Nat)
+    (hapex : NameOK apex) (hq : NameOK qname)
+    (hb : Zone.build apex soa ops = some z)
+    (hd1 : ZSpec.d1 (ZSpec.entriesOf apex soa ops) = true) :
+    (qname.isSubdomainOf apex = true →
+      ∃ rel r, rel ++ apex.labels = qname.labels ∧ z.resolve qname qtype = some r ∧
+        ZSpec.sameResult r (ZSpec.lookup (ZSpec.entriesOf apex soa ops) apex qname rel qtype) = true) ∧
+    (qname.isSubdomainOf apex = false → z.resolve qname qtype = none) := by
+  have hr := Zone.repr_build apex soa ops z hapex hb
+  constructor
+  · intro hsub
+    obtain ⟨rel, hrel⟩ := Zone.relativeDomain_isSome (z := z) (by rw [hr.apex_eq]; exact hsub)
+    refine ⟨rel, z.records.resolve qname qtype rel true, ?_, ?_, ?_⟩
+    · have := Zone.relativeDomain_some hrel; rwa [hr.apex_eq] at this
+    · simp [Zone.resolve, hrel]
+    · exact C02_resolve_refines_spec apex soa ops z qname qtype rel hapex hq hb hrel hd1
+  · intro hsub
+    simp [Zone.resolve, Zone.relativeDomain, hr.apex_eq, hsub]
+
+/-- The same phrased with the inductive reachability predicate. -/
+theorem C02_reachable_refines_spec (apex : Name) (soa : Option SOA) (ops : List ZoneOp) (z : Zone)
+    (qname : Name) (qtype : Nat) (rel : List Label)
+    (hapex : NameOK apex) (hq : NameOK qname)
+    (hb : Zone.Reachable apex soa ops z)
+    (hrel : z.relativeDomain qname = some rel)
+    (hd1 : ZSpec.d1 (ZSpec.entriesOf apex soa ops) = true) :
+    ZSpec.sameResult (z.records.resolve qname qtype rel true)
+      (ZSpec.lookup (ZSpec.entriesOf apex soa ops) apex qname rel qtype) = true :=
+  C02_resolve_refines_spec apex soa ops z qname qtype rel hapex hq
+    ((Zone.reachable_iff_build apex soa ops z).mp hb) hrel hd1
+
+/-- The representation invariant behind the main theorem, for use by other properties: a node
+    exists exactly at the names that exist in the specification's sense, and the record sets /
+    wildcard sets of the node at `rel` are the entries owned at `rel`, per type in configuration
+    order without duplicates. -/
+theorem C02_tree_represents_entries (apex : Name) (soa : Option SOA) (ops : List ZoneOp) (z : Zone)
+    (hapex : NameOK apex) (hb : Zone.build apex soa ops = some z) (rel : List Label) :
+    (PathExists z.records rel ↔ ZSpec.existsNode (ZSpec.entriesOf apex soa ops) rel = true) ∧
+    (∀ n, z.records.nodeAt rel = some n →
+      (∀ k, (n.this.get k).getD [] =
+          ZSpec.ofType (ZSpec.recordsAt (ZSpec.entriesOf apex soa ops) rel false) k) ∧
+      (∀ k, ((n.wildcards.getD []).get k).getD [] =
+          ZSpec.ofType (ZSpec.recordsAt (ZSpec.entriesOf apex soa ops) rel true) k) ∧
+      (n.wildcards = none ↔ ZSpec.recordsAt (ZSpec.entriesOf apex soa ops) rel true = []) ∧
+      ZSpec.absName rel apex = some n.nsdname) := by
+  have hr := Zone.repr_build apex soa ops z hapex hb
+  constructor
+  · rw [pathExists_iff_descend, hr.tree.exist, List.reverse_reverse]
+  · intro n hn
+    have hv := hr.tree.recs rel.reverse
+    have hn' : z.records.descend rel.reverse = some n := hn
+    simp only [ZNode.baseView, hn', List.reverse_reverse, ZNode.view] at hv
+    have hname := hr.tree.names rel.reverse n hn'
+    rw [List.reverse_reverse, hr.root_name] at hname
+    refine ⟨fun k => hv.1.get_eq k, ?_, ?_, hname⟩
+    · intro k
+      cases hw : n.wildcards with
+      | none =>
+        have := hv.2; rw [hw] at this; simp only [WildRepr] at this
+        simp [this, ZSpec.ofType]
+      | some ws =>
+        have := hv.2; rw [hw] at this
+        exact this.2.get_eq k
+    · cases hw : n.wildcards with
+      | none => have := hv.2; rw [hw] at this; simpa [WildRepr] using this
+      | some ws =>
+        have := hv.2; rw [hw] at this
+        simp only [reduceCtorEq, false_iff]; exact this.1
+
+/-- `Zone::insert` / `insert_wildcard` never panic on a configured zone: the `from_labels(..)
+    .unwrap()` inside `ZoneRecords::insert` cannot fail, because the labels it is given are a suffix
+    of the (valid) name being inserted. -/
+theorem C02_insert_never_panics (apex : Name) (soa : Option SOA) (ops : List ZoneOp) (z : Zone)
+    (name : Name) (rtype : Nat) (fields : List FieldVal) (ttl : Nat) (wild : Bool)
+    (hapex : NameOK apex) (hb : Zone.build apex soa ops = some z) (hname : NameOK name) :
+    (z.insert name rtype fields ttl wild).isSome := by
+  have hr := Zone.repr_build apex soa ops z hapex hb
+  exact Zone.insert_isSome z name rtype fields ttl wild hr.tree.names
+    (hr.root_name.trans hr.apex_eq.symm) hname
+
+/-- … hence building a zone from valid names never panics. -/
+theorem C02_build_never_panics (apex : Name) (soa : Option SOA) (ops : List ZoneOp)
+    (hapex : NameOK apex) (hops : ∀ op ∈ ops, NameOK op.name) :
+    (Zone.build apex soa ops).isSome :=
+  Zone.applyOps_isSome apex soa ops hops _ _ (Zone.repr_new apex soa hapex)
+
+/-- tree-level form: on a tree whose node names spell their paths (`NamesOK`), inserting at a
+    relative name that spells a valid name below the root succeeds. -/
+theorem C02_node_insert_never_panics (node : ZNode) (rel : List Label) (zr : ZoneRecord) (wild : Bool)
+    (hn : ZNode.NamesOK node) (hv : (Name.fromLabels (rel ++ node.nsdname.labels)).isSome) :
+    (node.insert rel zr wild).isSome := by
+  rw [ZNode.insert_eq_rev]
+  exact ZNode.insertRev_isSome zr wild rel.reverse node hn (by simpa using hv)
+
+/-- `Zone::resolve` never panics on a configured zone for a valid query name, provided every
+    configured CNAME record carries a single name (`CnameFieldsOK`; the `panic!` of
+    `zone_result_helper` guards exactly that) — D1 is NOT needed. -/
+theorem C02_resolve_never_panics (apex : Name) (soa : Option SOA) (ops : List ZoneOp) (z : Zone)
+    (qname : Name) (qtype : Nat)
+    (hapex : NameOK apex) (hq : NameOK qname)
+    (hb : Zone.build apex soa ops = some z)
+    (hok : CnameFieldsOK (ZSpec.entriesOf apex soa ops)) :
+    z.resolve qname qtype ≠ some .panic := by
+  have hr := Zone.repr_build apex soa ops z hapex hb
+  unfold Zone.resolve
+  cases hrel : z.relativeDomain qname with
+  | none => simp
+  | some rel =>
+    simp only [Option.map_some, ne_eq, Option.some.injEq]
+    have hl := Zone.relativeDomain_some hrel
+    rw [hr.apex_eq] at hl
+    exact resolve_ne_panic qtype hr.tree hr.root_name hq rel hl hok
+
+/-! ## non-vacuity: a concrete zone with a wildcard, a delegation, a duplicate and an out-of-zone
+    record satisfies every hypothesis of the main theorem -/
+
+namespace C02Example
+
+def apex : Name := ⟨[[97], []], 3⟩               -- "a."
+def w : Name := ⟨[[119], [97], []], 5⟩           -- "w.a."
+def d : Name := ⟨[[100], [97], []], 5⟩           -- "d.a."
+def xd : Name := ⟨[[120], [100], [97], []], 7⟩   -- "x.d.a."
+def zz : Name := ⟨[[122], [97], []], 5⟩          -- "z.a."
+def yw : Name := ⟨[[121], [119], [97], []], 7⟩   -- "y.w.a."
+def ns : Name := ⟨[[110], []], 3⟩                -- "n."   (outside the zone)
+def ca : Name := ⟨[[99], [97], []], 5⟩           -- "c.a."
+def soa : SOA := ⟨ns, ns, 1, 2, 3, 4, 300⟩
+def ops : List ZoneOp :=
+  [ { name := w, rtype := 1, fields := [.a 1], ttl := 60, wild := false },
+    { name := apex, rtype := 1, fields := [.a 9], ttl := 600, wild := true },       -- *.a. A
+    { name := d, rtype := 2, fields := [.name ns], ttl := 600, wild := false },     -- d.a. NS n.
+    { name := w, rtype := 1, fields := [.a 2], ttl := 600, wild := false },
+    { name := w, rtype := 1, fields := [.a 1], ttl := 60, wild := false },          -- duplicate
+    { name := ns, rtype := 1, fields := [.a 1], ttl := 60, wild := false },         -- outside: skipped
+    { name := ca, rtype := 5, fields := [.name w], ttl := 900, wild := false } ]    -- c.a. CNAME w.a.
+
+def es : List ZSpec.Entry := ZSpec.entriesOf apex (some soa) ops
+
+theorem names_ok : NameOK apex ∧ NameOK w ∧ NameOK d ∧ NameOK xd ∧ NameOK zz ∧ NameOK yw ∧ NameOK ns := by
+  decide
+theorem ops_ok : ∀ op ∈ ops, NameOK op.name := by decide
+theorem d1_ok : ZSpec.d1 es = true := by unfold es; rw [ZSpec.entriesOf_eq]; decide
+theorem es_len : es.length = 7 := by unfold es; rw [ZSpec.entriesOf_eq]; decide
+theorem cname_ok : CnameFieldsOK es := by
+  have h : es.all (fun e => e.zr.rtype != RT_CNAME ||
+      (match e.zr.fields with | [.name _] => true | _ => false)) = true := by
+    unfold es; rw [ZSpec.entriesOf_eq]; decide
+  intro e he hr
+  have := List.all_eq_true.mp h e he
+  simp only [hr, bne_self_eq_false, Bool.false_or] at this
+  split at this
+  · rename_i c hc; exact ⟨c, hc⟩
+  · cases this
+
+/-- the zone builds (no panic) … -/
+example : (Zone.build apex (some soa) ops).isSome :=
+  C02_build_never_panics apex (some soa) ops names_ok.1 ops_ok
+
+/-- for this zone a non-answer result of the specification is the result of `Zone::resolve`. -/
+theorem resolve_eq_of_lookup (z : Zone) (hb : Zone.build apex (some soa) ops = some z) (q : Name)
+    (qtype : Nat) (rel : List Label) (r : ZoneResult) (hq : NameOK q)
+    (hrel : rel ++ apex.labels = q.labels) (hl : ZSpec.lookup es apex q rel qtype = r)
+    (hna : ∀ x, r ≠ .answer x) : z.resolve q qtype = some r := by
+  obtain ⟨h, _⟩ := C02_zone_resolve_refines_spec apex (some soa) ops z q qtype names_ok.1 hq hb d1_ok
+  obtain ⟨rel', r', hrel', hres, hsame⟩ := h (by
+    unfold Name.isSubdomainOf; rw [List.isSuffixOf_iff_suffix]; exact ⟨rel, hrel⟩)
+  have : rel' = rel := List.append_cancel_right (hrel'.trans hrel.symm)
+  subst this
+  rw [show ZSpec.entriesOf apex (some soa) ops = es from rfl, hl] at hsame
+  rw [hres]
+  cases r' <;> cases r <;> simp_all [ZSpec.sameResult]
+
+/-- … whatever tree the insertions produced, a query beneath the delegation point `d.a.` is
+    referred to `n.` with the NS set owned by `d.a.` … -/
+example (z : Zone) (hb : Zone.build apex (some soa) ops = some z) :
+    z.resolve xd 1 = some (.delegation [⟨d, 2, [.name ns], 1, 600⟩]) :=
+  resolve_eq_of_lookup z hb xd 1 [[120], [100]] _ names_ok.2.2.2.1 rfl
+    (by unfold es; rw [ZSpec.entriesOf_eq]; decide) (by simp)
+
+/-- … a name beneath the existing name `w.a.` (an existing name blocks the wildcard) is a name
+    error … -/
+example (z : Zone) (hb : Zone.build apex (some soa) ops = some z) :
+    z.resolve yw 1 = some .nameError :=
+  resolve_eq_of_lookup z hb yw 1 [[121], [119]] _ names_ok.2.2.2.2.2.1 rfl
+    (by unfold es; rw [ZSpec.entriesOf_eq]; decide) (by simp)
+
+/-- … an A query at the alias `c.a.` yields the CNAME indirection … -/
+example (z : Zone) (hb : Zone.build apex (some soa) ops = some z) :
+    z.resolve ca 1 = some (.cname w ⟨ca, 5, [.name w], 1, 900⟩) :=
+  resolve_eq_of_lookup z hb ca 1 [[99]] _ (by decide) rfl
+    (by unfold es; rw [ZSpec.entriesOf_eq]; decide) (by simp)
+
+/-- … and the specification synthesises `z.a. A` from `*.a.` (TTL as configured, above the SOA
+    minimum) and answers `w.a. A` with the two distinct records, the first TTL clamped to 300. -/
+example :
+    ZSpec.lookup es apex zz [[122]] 1 = .answer [⟨zz, 1, [.a 9], 1, 600⟩] ∧
+    ZSpec.lookup es apex w [[119]] 1 = .answer [⟨w, 1, [.a 1], 1, 300⟩, ⟨w, 1, [.a 2], 1, 600⟩] := by
+  unfold es; rw [ZSpec.entriesOf_eq]; decide
+
+/-- `Zone::resolve` never panics here. -/
+example (z : Zone) (hb : Zone.build apex (some soa) ops = some z) (qtype : Nat) :
+    z.resolve zz qtype ≠ some .panic :=
+  C02_resolve_never_panics apex (some soa) ops z zz qtype names_ok.1 names_ok.2.2.2.2.1 hb cname_ok
+
+/-- clause theorems on a literal tree: `w.a.` under the apex `a.`, with a CNAME at `c.a.`. -/
+def tree : ZNode :=
+  .mk apex [(6, [Zone.soaRecord soa])] none
+    [([119], .mk w [(1, [⟨1, [.a 1], 300⟩])] none []),
+     ([99], .mk ca [(5, [⟨5, [.name w], 300⟩])] none []),
+     ([100], .mk d [(2, [⟨2, [.name ns], 600⟩])] none [])]
+
+example : PathExists tree [[119]] :=
+  PathExists.step tree _ [] [119] rfl (PathExists.here _)
+
+example : tree.resolve w 1 [[119]] true = .answer [⟨w, 1, [.a 1], 1, 300⟩] := by
+  rw [ZNode.resolve_eq_rev]; rfl
+
+example : tree.resolve ca 1 [[99]] true = .cname w ⟨ca, 5, [.name w], 1, 300⟩ := by
+  rw [ZNode.resolve_eq_rev]; rfl
+
+example : tree.resolve xd 1 [[120], [100]] true = .delegation [⟨d, 2, [.name ns], 1, 600⟩] := by
+  rw [ZNode.resolve_eq_rev]; rfl
+
+example : tree.resolve zz 1 [[122]] true = .nameError := by
+  rw [ZNode.resolve_eq_rev]; rfl
+
+/-- D1 is NECESSARY: with a record beneath the delegation point `d.a.` (so D1 fails) the tree
+    answers `x.d.a. A` authoritatively, whereas the specification refers the query to `n.`. -/
+def opsNonD1 : List ZoneOp :=
+  [ { name := d, rtype := 2, fields := [.name ns], ttl := 600, wild := false },
+    { name := xd, rtype := 1, fields := [.a 5], ttl := 600, wild := false } ]
+
+def treeNonD1 : ZNode :=
+  .mk apex [] none
+    [([100], .mk d [(2, [⟨2, [.name ns], 600⟩])] none
+       [([120], .mk xd [(1, [⟨1, [.a 5], 600⟩])] none [])])]
+
+example :
+    Zone.build apex none opsNonD1 = some ⟨apex, none, treeNonD1⟩ ∧
+    treeNonD1.resolve xd 1 [[120], [100]] true = .answer [⟨xd, 1, [.a 5], 1, 600⟩] ∧
+    ZSpec.d1 (ZSpec.entriesOf apex none opsNonD1) = false ∧
+    ZSpec.lookup (ZSpec.entriesOf apex none opsNonD1) apex xd [[120], [100]] 1 =
+      .delegation [⟨d, 2, [.name ns], 1, 600⟩] := by
+  refine ⟨?_, ?_, ?_, ?_⟩
+  · simp only [Zone.build, opsNonD1, Zone.applyOps, Zone.applyOp, Zone.insert_eq_insertRev]
+    rfl
+  · rw [ZNode.resolve_eq_rev]; rfl
+  · rw [ZSpec.entriesOf_eq]; decide
+  · rw [ZSpec.entriesOf_eq]; decide
+
+end C02Example
 
 end Resolved
